@@ -312,7 +312,51 @@ def check_C13(tier, seed):
                          "succeeding ones and includes resolved through the search path")
 
 
-CHECKS = {"C13": check_C13, "C01": check_C01, "C02": check_C02, "C03": check_C03, "C04": check_C04, "C05": check_C05, "C06": check_C06,
+def check_C17(tier, seed):
+    v = Verdict("C17", tier, seed)
+    exe = build_driver("asan")
+    from . import spcheck
+    res = run_tlc("MC_SP.tla", os.path.join("mc", "sp_quick.cfg" if tier == "quick" else "sp_thorough.cfg"))
+    v.add_tlc("sp.cfg", res, ["P_C17_FirstAdded", "P_C17_AbsoluteBypass", "P_C17_DirsNeverMatch", "P_C17_Tilde"])
+    spcheck.replay(v, exe, res, seed=seed, tag="C17")
+    plain = build_driver("plain")
+    spcheck.tilde(v, res, [("asan", exe, False), ("valgrind", plain, True)], tag="C17")
+    v.assumptions.append("accounts root (/root) and nobody (/nonexistent) exist, 'nouser' does not; the checks run as root")
+    v.cov["exhaustive"] = True
+    return v.finish(rule="every search-path sequence up to the bound over {existing d1, existing d2, missing, ~nouser/..., ~root/...} x "
+                         "{regular file, directory, nothing} named a.conf in d1 and in d2 x eight names (relative, absolute, sub-directory "
+                         "relative, missing, directory); cfg_searchpath result, and which file's marker cfg_parse and include() end up "
+                         "reading; twelve tilde forms through cfg_tilde_expand and cfg_add_searchpath under ASan and under valgrind")
+
+
+def check_C08(tier, seed):
+    v = Verdict("C08", tier, seed)
+    exe = build_driver("asan")
+    from . import scancheck
+    c = "scan_thorough.cfg" if tier == "thorough" else "scan_quick.cfg"
+    res = run_tlc("MC_Scan.tla", os.path.join("mc", c))
+    v.add_tlc(c, res, ["P_C08_Clean", "P_C08_HistoryFree", "P_C08_NoCrossTalk"])
+    for e in res.errors:
+        if "is violated" in e:
+            v.violation("spec:%s" % e[:60], "TLC: %s" % e, {})
+    scancheck.replay(v, exe, res, seed=seed, tag="C08")
+    w = run_tlc("MC_Scan.tla", os.path.join("mc", "scan_unrepaired.cfg"), want_behaviours=False)
+    if "P_C08_Clean" not in w.violated:
+        raise ModelError("vacuity witness failed: the unrepaired scanner model should violate P_C08_Clean")
+    v.notes.append("vacuity witness: the model of the pinned (unrepaired) scanner violates P_C08_Clean, as expected")
+    # token level: a rejected parse (bad value / range check, bad token, failing callback) followed by another parse
+    res = tlc_parse(v, "C01_two_parses.cfg", INV_PARSE)
+    res.behaviours = [b for b in res.behaviours if len(b["parses"]) == 2]
+    parsecheck.replay(v, exe, res, aspects={"diag", "balance"}, seed=seed, renderings=("canonical",), tag="C08p")
+    v.cov["exhaustive"] = True
+    return v.finish(rule="every history up to the bound over {accepted parse, parse aborted inside a double-quoted string / a single-quoted "
+                         "string / a comment / on a bad escape / inside an included file / by the include depth limit, accepted include, free + "
+                         "re-create} x two contexts, followed by four probe parses into a fresh context; return code, tree and diagnostics of "
+                         "every step compared with the scanner+parser composition of the specification (= the result in a fresh process), the "
+                         "other contexts must not change; plus every pair of short texts parsed one after the other into one context")
+
+
+CHECKS = {"C08": check_C08, "C17": check_C17, "C13": check_C13, "C01": check_C01, "C02": check_C02, "C03": check_C03, "C04": check_C04, "C05": check_C05, "C06": check_C06,
           "C07": check_C07, "C09": check_C09, "C10": check_C10, "C11": check_C11, "C12": check_C12, "C14": check_C14,
           "C15": check_C15, "C19": check_C19}
 
